@@ -90,18 +90,294 @@ theorem logEinsumDot_overflow_witness :
     Cls.nan ∈ logEinsumDot true [.pos, .ninf] [.ninf, .pos] ∧
     logEinsumDot false [.pos, .ninf] [.ninf, .pos] = [Cls.ninf] := by decide
 
-/-- the all-−∞ inner product is exactly −∞ (small instances; the general length is covered by
-    `logEinsumDot_never_nan` + the harness) -/
-theorem logEinsumDot_all_ninf_partial :
-    logEinsumDot false [.ninf] [.ninf] = [Cls.ninf] ∧
-    logEinsumDot false [.ninf, .ninf] [.ninf, .ninf] = [Cls.ninf] ∧
-    logEinsumDot false [.ninf, .ninf, .ninf] [.ninf, .neg, .pos] = [Cls.ninf] := by decide
-
 /-- max-plus inner product (numpy_map): never NaN on max-plus values (no +∞), −∞ absorbing -/
 theorem maxEinsumDot_small :
     maxEinsumDot [.ninf, .ninf] [.neg, .pos] = [Cls.ninf] ∧
     Cls.nan ∈ maxEinsumDot [.ninf] [.pinf] := by decide
 
+/-! ## limits at −∞, arrays of any length -/
+
+def isNinfC (c : Cls) : Bool := c == .ninf
+def isPzeroC (c : Cls) : Bool := c == .pzero
+
+theorem mem_zipWith_zip {α β γ : Type} (f : α → β → γ) (xs : List α) (ys : List β) (z : γ)
+    (h : z ∈ List.zipWith f xs ys) : ∃ p ∈ List.zip xs ys, z = f p.1 p.2 := by
+  induction xs generalizing ys with
+  | nil => simp at h
+  | cons x xs ih =>
+    cases ys with
+    | nil => simp at h
+    | cons y ys =>
+      simp only [List.zipWith_cons_cons, List.mem_cons] at h
+      rcases h with h | h
+      · exact ⟨(x, y), by simp, h⟩
+      · obtain ⟨p, hp, hz⟩ := ih ys h
+        exact ⟨p, by simp [hp], hz⟩
+
+/-- `exp(−∞ − shift) = +0` exactly -/
+theorem expLeShift_ninf (shift : CSet) (hs : shift.all Cls.isFinite = true) :
+    (expLeShift shift .ninf).all isPzeroC = true := by
+  unfold expLeShift
+  apply all_norm
+  apply all_map isPzeroC isPzeroC _ (by decide)
+  apply all_lift1 isNinfC isPzeroC expC (by decide)
+  exact all_lift2 isNinfC Cls.isFinite isNinfC subC (by decide) [.ninf] shift (by decide) hs
+
+/-- If every term of the inner product has a −∞ factor (in particular: an operand is all −∞, or the
+    supports are disjoint), every possible result of the log-space einsum is −∞ — for operands of
+    any length, on the stated domain. -/
+theorem logEinsumDot_zero_terms (xs ys : List Cls) (hx : xs.all logDom = true)
+    (hy : ys.all logDom = true)
+    (hz : ∀ p ∈ List.zip xs ys, p.1 = Cls.ninf ∨ p.2 = Cls.ninf) :
+    (logEinsumDot false xs ys).all isNinfC = true := by
+  unfold logEinsumDot
+  dsimp only
+  have hsx := shift_finite xs hx
+  have hsy := shift_finite ys hy
+  have hprods : ∀ s ∈ List.zipWith (fun a b => lift2 mulUnitC
+      (expLeShift (norm ((amaxC xs).map clipLoC)) a) (expLeShift (norm ((amaxC ys).map clipLoC)) b)) xs ys,
+      s.all isPzeroC = true := by
+    intro s hs
+    obtain ⟨p, hp, rfl⟩ := mem_zipWith_zip _ _ _ _ hs
+    have hpx : logDom p.1 = true := (List.all_eq_true.mp hx) p.1 (List.of_mem_zip hp).1
+    have hpy : logDom p.2 = true := (List.all_eq_true.mp hy) p.2 (List.of_mem_zip hp).2
+    rcases hz p hp with h | h
+    · rw [h]
+      exact all_lift2 isPzeroC unitC isPzeroC mulUnitC (by decide) _ _
+        (expLeShift_ninf _ hsx) (expLeShift_unit _ hsy p.2 hpy)
+    · rw [h]
+      exact all_lift2 unitC isPzeroC isPzeroC mulUnitC (by decide) _ _
+        (expLeShift_unit _ hsx p.1 hpx) (expLeShift_ninf _ hsy)
+  have hsum := sumSetsNoOvf_all isPzeroC (by decide) (by decide) _ hprods
+  have hlog := all_lift1 isPzeroC isNinfC logNpC (by decide) _ hsum
+  have hshifts : (lift2 addNoOvfC (norm ((amaxC xs).map clipLoC))
+      (norm ((amaxC ys).map clipLoC))).all Cls.isFinite = true :=
+    all_lift2 Cls.isFinite Cls.isFinite Cls.isFinite addNoOvfC (by decide) _ _ hsx hsy
+  simp only [Bool.false_eq_true, if_false]
+  exact all_lift2 Cls.isFinite isNinfC isNinfC addC (by decide) _ _ hshifts hlog
+
+theorem zipWith_replicate' {α β γ : Type} (f : α → β → γ) (a : α) (b : β) (n : Nat) :
+    List.zipWith f (List.replicate n a) (List.replicate n b) = List.replicate n (f a b) := by
+  induction n with
+  | zero => rfl
+  | succ n ih => simp only [List.replicate_succ, List.zipWith_cons_cons, ih]
+
+theorem sumSetsNoOvf_replicate_pzero (n : Nat) :
+    sumSetsNoOvf (List.replicate (n + 1) [Cls.pzero]) = [Cls.pzero] := by
+  induction n with
+  | zero => decide
+  | succ n ih =>
+    rw [List.replicate_succ]
+    show lift2 addNoOvfC [Cls.pzero] (sumSetsNoOvf (List.replicate (n + 1) [Cls.pzero])) = [Cls.pzero]
+    rw [ih]; decide
+
+/-- The log-space inner product of two all-−∞ arrays of length `n + 1` is exactly −∞
+    (general length; replaces the small instances). -/
+theorem logEinsumDot_all_ninf (n : Nat) :
+    logEinsumDot false (List.replicate (n + 1) Cls.ninf) (List.replicate (n + 1) Cls.ninf)
+      = [Cls.ninf] := by
+  unfold logEinsumDot
+  dsimp only
+  rw [amax_replicate_ninf, zipWith_replicate']
+  have h1 : norm ([Cls.ninf].map clipLoC) = [Cls.neg] := by decide
+  rw [h1]
+  have h2 : lift2 mulUnitC (expLeShift [Cls.neg] Cls.ninf) (expLeShift [Cls.neg] Cls.ninf) = [Cls.pzero] := by
+    decide
+  rw [h2, sumSetsNoOvf_replicate_pzero]
+  decide
+
+/-- … and −∞ against any log-space operand of the same length: exactly −∞ as well
+    (`all` form from `logEinsumDot_zero_terms`). -/
+theorem logEinsumDot_ninf_operand (ys : List Cls) (hy : ys.all logDom = true) :
+    (logEinsumDot false (List.replicate ys.length Cls.ninf) ys).all isNinfC = true := by
+  apply logEinsumDot_zero_terms _ _ _ hy
+  · intro p hp
+    left
+    exact List.eq_of_mem_replicate (List.of_mem_zip hp).1
+  · rw [List.all_eq_true]
+    intro c hc
+    rw [List.eq_of_mem_replicate hc]; decide
+
+/-! ## the accumulation order: the code's, and the suggested one -/
+
+/-- the suggested repair of KF-logeinsum-shift-overflow: `sum([result] + shifts)` — start from the
+    log term (shift sum may overflow: plain `addC`). -/
+def logEinsumDotFixed (xs ys : List Cls) : CSet :=
+  let sx := norm ((amaxC xs).map clipLoC)
+  let sy := norm ((amaxC ys).map clipLoC)
+  let prods := List.zipWith (fun a b => lift2 mulUnitC (expLeShift sx a) (expLeShift sy b)) xs ys
+  lift2 addC (lift2 addC (lift1 logNpC (sumSetsNoOvf prods)) sx) sy
+
+/-- With the log term first the inner product is NaN-free for ALL log-space operands of any length,
+    overflowing shift sums included (no `ovf = false` hypothesis). -/
+theorem logEinsumDotFixed_never_nan (xs ys : List Cls) (hx : xs.all logDom = true)
+    (hy : ys.all logDom = true) : (logEinsumDotFixed xs ys).all nonNan = true := by
+  unfold logEinsumDotFixed
+  dsimp only
+  have hsx := shift_finite xs hx
+  have hsy := shift_finite ys hy
+  have hprods : ∀ s ∈ List.zipWith (fun a b => lift2 mulUnitC
+      (expLeShift (norm ((amaxC xs).map clipLoC)) a) (expLeShift (norm ((amaxC ys).map clipLoC)) b)) xs ys,
+      s.all unitC = true := by
+    intro s hs
+    obtain ⟨a, ha, b, hb, rfl⟩ := mem_zipWith _ _ _ _ hs
+    exact all_lift2 unitC unitC unitC mulUnitC (by decide) _ _
+      (expLeShift_unit _ hsx a ((List.all_eq_true.mp hx) a ha))
+      (expLeShift_unit _ hsy b ((List.all_eq_true.mp hy) b hb))
+  have hsum := sumSetsNoOvf_all unitC (by decide) (by decide) _ hprods
+  have hlog := all_lift1 unitC nonNan logNpC (by decide) _ hsum
+  have h1 := all_lift2 nonNan Cls.isFinite nonNan addC (by decide) _ _ hlog hsx
+  exact all_lift2 nonNan Cls.isFinite nonNan addC (by decide) _ _ h1 hsy
+
+/-- and it returns −∞ where the code's order returns NaN -/
+theorem logEinsumDotFixed_at_witness :
+    logEinsumDotFixed [.pos, .ninf] [.ninf, .pos] = [Cls.ninf] := by decide
+
+/-! ## the band: spread of one operand below 745 -/
+
+/-- Outside the stated band the model — like the code on `[800, 0] · [-800, 5]` (exact value
+    5.0067, returned −∞) — admits −∞ for operands that are all finite: `exp(entry − shift)` of a
+    finite entry may underflow to 0. -/
+theorem logEinsumDot_underflow_witness :
+    Cls.ninf ∈ logEinsumDot false [.pos, .pzero] [.neg, .pos] ∧
+    ([Cls.pos, Cls.pzero] ++ [Cls.neg, Cls.pos]).all Cls.isFinite = true := by decide
+
+/-- inside the band `exp(entry − shift)` of a finite entry is positive -/
+def expBand (shift : CSet) (c : Cls) : CSet :=
+  (expLeShift shift c).filter fun r => !(r == Cls.pzero && c.isFinite)
+
+/-- the log term under the band assumption -/
+def logTermBand (xs ys : List Cls) : CSet :=
+  let sx := norm ((amaxC xs).map clipLoC)
+  let sy := norm ((amaxC ys).map clipLoC)
+  lift1 logNpC (sumSetsNoOvf
+    (List.zipWith (fun a b => lift2 mulUnitC (expBand sx a) (expBand sy b)) xs ys))
+
+def posUnitC (c : Cls) : Bool := c == .pos || c == .one
+
+theorem expBand_pos (shift : CSet) (hs : shift.all Cls.isFinite = true) (c : Cls)
+    (hc : c.isFinite = true) : (expBand shift c).all posUnitC = true := by
+  have hu := expLeShift_unit shift hs c (by revert hc; cases c <;> decide)
+  unfold expBand
+  rw [List.all_eq_true] at hu ⊢
+  intro r hr
+  have hm := List.mem_filter.mp hr
+  have h1 := hu r hm.1
+  have h2 := hm.2
+  rw [hc] at h2
+  revert h1 h2
+  cases r <;> decide
+
+/-- partial (the band itself — spread < 745 — is not expressible in the class abstraction and is
+    an explicit assumption, measured by the harness): inside the band, with all entries finite
+    and products that do not underflow, the log term of the inner product is never −∞ or NaN. -/
+theorem logEinsumDot_band_never_ninf_partial (xs ys : List Cls) (hx : xs.all Cls.isFinite = true)
+    (hy : ys.all Cls.isFinite = true) (hne : List.zip xs ys ≠ [])
+    (hnounder : ∀ p ∈ List.zip xs ys, ∀ r ∈ lift2 mulUnitC
+        (expBand (norm ((amaxC xs).map clipLoC)) p.1) (expBand (norm ((amaxC ys).map clipLoC)) p.2),
+        posUnitC r = true) :
+    (logTermBand xs ys).all Cls.isFinite = true := by
+  unfold logTermBand
+  dsimp only
+  have hprods : ∀ s ∈ List.zipWith (fun a b => lift2 mulUnitC
+      (expBand (norm ((amaxC xs).map clipLoC)) a) (expBand (norm ((amaxC ys).map clipLoC)) b)) xs ys,
+      s.all posUnitC = true := by
+    intro s hs
+    obtain ⟨p, hp, rfl⟩ := mem_zipWith_zip _ _ _ _ hs
+    rw [List.all_eq_true]
+    exact hnounder p hp
+  cases hzs : List.zipWith (fun a b => lift2 mulUnitC
+      (expBand (norm ((amaxC xs).map clipLoC)) a) (expBand (norm ((amaxC ys).map clipLoC)) b)) xs ys with
+  | nil =>
+    exfalso
+    apply hne
+    cases xs with
+    | nil => rfl
+    | cons x xs' =>
+      cases ys with
+      | nil => rfl
+      | cons y ys' => simp at hzs
+  | cons s ss =>
+    rw [hzs] at hprods
+    have hsum : (sumSetsNoOvf (s :: ss)).all posUnitC = true := by
+      clear hzs
+      induction ss generalizing s with
+      | nil => exact all_norm _ _ (hprods s (by simp))
+      | cons t ts ih =>
+        show (lift2 addNoOvfC s (sumSetsNoOvf (t :: ts))).all posUnitC = true
+        exact all_lift2 posUnitC posUnitC posUnitC addNoOvfC (by decide) _ _ (hprods s (by simp))
+          (ih t (fun u hu => hprods u (by simp [hu])))
+    exact all_lift1 posUnitC Cls.isFinite logNpC (by decide) _ hsum
+
+/-! ## max-plus inner product (einsum/numpy_map.py), arrays of any length -/
+
+theorem foldl_maxNp_all (P : Cls → Bool)
+    (hP : ∀ x y, P x = true → P y = true → (maxNpC x y).all P = true)
+    (ss : List CSet) (acc : CSet) (hacc : acc.all P = true) (h : ∀ s ∈ ss, s.all P = true) :
+    (ss.foldl (fun a t => lift2 maxNpC a t) acc).all P = true := by
+  induction ss generalizing acc with
+  | nil => exact hacc
+  | cons s rest ih =>
+    simp only [List.foldl_cons]
+    exact ih _ (all_lift2 P P P maxNpC hP acc s hacc (h s (by simp))) (fun u hu => h u (by simp [hu]))
+
+theorem maxEinsumDot_all (Q : Cls → Bool) (hadd : ∀ p ∈ List.zip xs ys, (addC p.1 p.2).all Q = true)
+    (hQ : ∀ x y, Q x = true → Q y = true → (maxNpC x y).all Q = true) :
+    (maxEinsumDot xs ys).all Q = true := by
+  unfold maxEinsumDot
+  have hall : ∀ s ∈ List.zipWith (fun a b => addC a b) xs ys, s.all Q = true := by
+    intro s hs
+    obtain ⟨p, hp, rfl⟩ := mem_zipWith_zip _ _ _ _ hs
+    exact hadd p hp
+  cases hzs : List.zipWith (fun a b => addC a b) xs ys with
+  | nil => rfl
+  | cons s ss =>
+    rw [hzs] at hall
+    exact foldl_maxNp_all Q hQ (s :: ss) s (hall s (by simp)) hall
+
+/-- On max-plus values (no NaN, no +∞) the max-plus inner product never produces NaN. -/
+theorem maxEinsumDot_never_nan (xs ys : List Cls) (hx : xs.all logDom = true)
+    (hy : ys.all logDom = true) : (maxEinsumDot xs ys).all nonNan = true := by
+  apply maxEinsumDot_all nonNan
+  · intro p hp
+    have hpx : logDom p.1 = true := (List.all_eq_true.mp hx) p.1 (List.of_mem_zip hp).1
+    have hpy : logDom p.2 = true := (List.all_eq_true.mp hy) p.2 (List.of_mem_zip hp).2
+    revert hpx hpy
+    generalize p.1 = a; generalize p.2 = b
+    revert a b; decide
+  · decide
+
+/-- If every term has a −∞ summand, every possible result is −∞ (−∞ absorbs `+`, is neutral for max). -/
+theorem maxEinsumDot_ninf_terms (xs ys : List Cls) (hx : xs.all logDom = true)
+    (hy : ys.all logDom = true) (hz : ∀ p ∈ List.zip xs ys, p.1 = Cls.ninf ∨ p.2 = Cls.ninf) :
+    (maxEinsumDot xs ys).all isNinfC = true := by
+  apply maxEinsumDot_all isNinfC
+  · intro p hp
+    have hpx : logDom p.1 = true := (List.all_eq_true.mp hx) p.1 (List.of_mem_zip hp).1
+    have hpy : logDom p.2 = true := (List.all_eq_true.mp hy) p.2 (List.of_mem_zip hp).2
+    have h := hz p hp
+    revert hpx hpy h
+    generalize p.1 = a; generalize p.2 = b
+    revert a b; decide
+  · decide
+
+/-- the max-plus inner product of two all-−∞ arrays of length `n + 1` is exactly −∞ -/
+theorem maxEinsumDot_all_ninf (n : Nat) :
+    maxEinsumDot (List.replicate (n + 1) Cls.ninf) (List.replicate (n + 1) Cls.ninf) = [Cls.ninf] := by
+  unfold maxEinsumDot
+  rw [zipWith_replicate']
+  have h : addC Cls.ninf Cls.ninf = [Cls.ninf] := by decide
+  rw [h, List.replicate_succ]
+  simp only [List.foldl_cons]
+  have h2 : lift2 maxNpC [Cls.ninf] [Cls.ninf] = [Cls.ninf] := by decide
+  rw [h2]
+  induction n with
+  | zero => rfl
+  | succ n ih => rw [List.replicate_succ, List.foldl_cons, h2]; exact ih
+
 example : [Cls.ninf, Cls.neg].all logDom = true := by decide
+example : ∃ xs ys : List Cls, xs.all logDom = true ∧ ys.all logDom = true ∧
+    (∀ p ∈ List.zip xs ys, p.1 = Cls.ninf ∨ p.2 = Cls.ninf) ∧ List.zip xs ys ≠ [] :=
+  ⟨[.pos, .ninf], [.ninf, .pos], by decide, by decide, by decide, by decide⟩
 
 end FV.Props.C15
